@@ -4,7 +4,7 @@ from wire import hx, opt, lst
 from chancommon import KIND, CASE_WALL, run_impl, shrink_candidates, classify_common  # noqa: F401
 
 SPECS = ["C08"]
-THEOREMS = ["C08.placeholder"]
+THEOREMS = ["C08.case_spec_partial", "C08.case_spec_full_is_false", "C08.attached_invariant", "C08.reads_pass_through", "C08.fw_prefix", "C08.fw_all", "C08.fw_literal", "C08.fw_at_prompt", "C08.detach_clean", "C08.detach_regex", "C08.overlap_spec", "C08.ovl_longest", "C08.asciiT_decodeReplace", "C08.asciiT_fragments", "C08.fwdFor_text", "C08.step"]
 QUICK_N, THOROUGH_N = 6000, 100000
 QUICK_BUDGET, THOROUGH_BUDGET = 40, 900
 RULE = ("literal and regex prompts, both suppression modes, 1-4 consecutive commands each read with read_until_prompt / "
@@ -103,3 +103,22 @@ def kf_nested_holdback(line, impl, model):
     """an attachment is opened while another suppressing attachment is open: the hold-back buffer
     is channel-global, so bytes read before the inner attach can be flushed to the inner stream"""
     return any(a == "0" and b == "0" for a, b in _nesting(line))
+
+
+def _prompt_change_while_suppressing(line):
+    sup = []
+    for o in line.split()[4:]:
+        if o.startswith("st+"):
+            sup.append(o.endswith(":0"))
+        elif o == "st-" and sup:
+            sup.pop()
+        elif sup and sup[-1] and (o.startswith(("prompt:", "wp+", "wp-")) or (o.startswith("rup:") and not o.startswith("rup:-"))):
+            return True
+    return False
+
+
+def kf_prompt_change(line, impl, model):
+    """the channel prompt is changed (assignment, with_prompt enter/exit, per-call prompt of
+    read_until_prompt) while an attachment with suppression is open: the hold-back buffer was
+    computed for the old prompt and is neither flushed nor re-examined"""
+    return _prompt_change_while_suppressing(line)
